@@ -38,6 +38,8 @@ impl Property for C16 {
             20 => prop::collection::vec(content_strategy(LenClass::Small, false), 5..60),
             4 => prop::collection::vec(content_strategy(LenClass::Small, true), 60..300),
             if tier == Tier::Thorough { 2 } else { 1 } => prop::collection::vec(content_strategy(LenClass::Tiny, true), 4090..4102),
+            3 => same_hint_run_strategy(),
+            1 => big_near_duplicate_strategy(),
         ];
         (comp_strategy(), any::<bool>(), seq)
             .prop_map(|(comp, dedup, contents)| {
@@ -48,7 +50,7 @@ impl Property for C16 {
     }
 
     fn required_classes(_tier: Tier) -> Vec<&'static str> {
-        vec!["mixed-hints-compressing", "duplicate-pair", "dedup", "comp:none", "comp:lz4", "comp:lzma", "comp:zstd", "duplicate-different-hints", "hint-yes-checked", "hint-no-checked"]
+        vec!["full-raw-cluster-in-compressing-pack", "near-duplicate>=4MiB-dedup", "mixed-hints-compressing", "duplicate-pair", "dedup", "comp:none", "comp:lz4", "comp:lzma", "comp:zstd", "duplicate-different-hints", "hint-yes-checked", "hint-no-checked"]
     }
 
     fn run(case: &Case, ctx: &Ctx) -> CaseResult {
@@ -190,6 +192,12 @@ impl Property for C16 {
             case.dedup
         );
         // raw and compressed clusters never share: nibble is per cluster, already checked per content
+        if case.comp != Comp::None && cp.clusters.iter().any(|c| c.comp == 0 && c.blob_offsets.len() - 1 == 4095) {
+            info.class("full-raw-cluster-in-compressing-pack");
+        }
+        if case.dedup && case.contents.iter().zip(bytes.iter()).any(|(c, b)| c.flip.is_some() && c.dup_of.is_some() && b.len() >= 4 << 20) {
+            info.class("near-duplicate>=4MiB-dedup");
+        }
         let has_yes = case.contents.iter().any(|c| c.hint == Hint::Yes);
         let has_no = case.contents.iter().any(|c| c.hint == Hint::No);
         if has_yes && has_no && case.comp != Comp::None {
